@@ -69,18 +69,35 @@ func (m *model) ruleTicker(s *report.Sink) {
 	// defaulting in New
 	var stores []access
 	var goLoop ssa.Instruction
-	for _, f := range ssax.WithAnon(m.fnNew) {
+	// New, its closures and the helpers it calls; a write anywhere else is out of place
+	inNew := map[*ssa.Function]bool{}
+	var add func(f *ssa.Function)
+	add = func(f *ssa.Function) {
+		if f == nil || inNew[f] || f.Blocks == nil {
+			return
+		}
+		inNew[f] = true
+		for _, a := range f.AnonFuncs {
+			add(a)
+		}
+		ssax.Instrs(f, func(in ssa.Instruction) {
+			if c, ok := in.(ssa.CallInstruction); ok {
+				if callee := c.Common().StaticCallee(); callee != nil && callee.Pkg == m.pkg && callee != m.fnLoop && callee != m.fnWorker {
+					if _, isGo := in.(*ssa.Go); !isGo {
+						add(callee)
+					}
+				}
+			}
+		})
+	}
+	add(m.fnNew)
+	outside := false
+	for _, f := range m.funcs {
 		for _, a := range fieldAccesses(f, m.Config) {
 			if a.f == fFreq && a.write {
 				stores = append(stores, a)
-			}
-		}
-	}
-	for _, f := range m.funcs {
-		for _, a := range fieldAccesses(f, m.Config) {
-			if a.f == fFreq && a.write && top(a.in.Parent()) != m.fnNew {
-				if c, ok := m.site[a.in.Parent()]; !ok || top(c.Parent()) != m.fnNew {
-					stores = append(stores, a)
+				if !inNew[f] {
+					outside = true
 				}
 			}
 		}
@@ -103,7 +120,7 @@ func (m *model) ruleTicker(s *report.Sink) {
 		}
 		return false
 	}
-	okDefault := len(stores) > 0 && goLoop != nil
+	okDefault := len(stores) > 0 && goLoop != nil && !outside
 	why := "Config.New never gives an unset " + fFreq.Name() + " a default: time.NewTicker(0) panics on the scheduler loop's goroutine"
 	for _, st := range stores {
 		if st.kind != "write" || find(m.atomsOf(st.in), isUnset) == nil {
